@@ -1045,10 +1045,16 @@ def rule_input(rep: Report, rid="C15.input") -> None:
     I = c.I
 
     def rooted_in_doc(t, depth=0) -> bool:
+        levels = 0
         while isinstance(t, tuple) and t and t[0] in ("item", "attr", "slice"):
             t = t[1]
+            levels += 1
         if t == c.doc:
             return True
+        # a shallow copy (copy.copy / dict(x) / list(x) / x.copy()) of a document object is a new object - what it contains is
+        # still the document's: a change one level or more below the copy is a change of the document
+        if levels >= 1 and isinstance(t, tuple) and t and t[0] == "call" and t[1] in ("copy.copy", ".copy", "dict", "list") and len(t[2]) == 1 and depth < 6:
+            return rooted_in_doc(t[2][0], depth + 1)
         if depth < 6 and isinstance(t, tuple) and t and t[0] in ("phi", "loopout"):
             info = I.loops.get(t[1], {})
             alts = [info.get("carried_init", {}).get(t[2]), info.get("carried", {}).get(t[2]), info.get("break_env", {}).get(t[2])]
